@@ -296,7 +296,8 @@ bool commodity_t::symbol_needs_quotes(const string& symbol)
     if (invalid_chars[static_cast<unsigned char>(ch)])
       return true;
 
-  return false;
+  // a bare symbol that spells a reserved word is not read as a symbol
+  return is_reserved_token(symbol.c_str());
 }
 
 void commodity_t::parse_symbol(std::istream& in, string& symbol)
